@@ -31,7 +31,7 @@ LEVEL_NOTE = "Trusted: the harness's winding-number test, shoelace area, affine 
 def budget(tier):
     if tier == "quick":
         return dict(max_examples=1500, workers=4, time_s=170, min_cases=400)
-    return dict(max_examples=100000, workers=16, time_s=1200, min_cases=20000)
+    return dict(max_examples=100000, workers=16, time_s=1200, min_cases=800)
 
 
 @st.composite
